@@ -2,6 +2,8 @@ package rules
 
 import (
 	"fmt"
+	"go/token"
+	"go/types"
 	"strings"
 
 	"golang.org/x/tools/go/ssa"
@@ -57,14 +59,33 @@ func randFill(s *an.PathState, buf *an.Term, before int) (int, string) {
 			}
 		}
 	}
+	// crypto/rand did run on this path, but into another buffer: the one that reaches the consumer is not the one filled
+	// (e.g. a fixed-size array handed to the filling helper by value — the helper fills its own copy)
+	for i, e := range s.Events {
+		if i >= before || e.Kind != "call" {
+			continue
+		}
+		if e.Callee == "crypto/rand.Read" && len(e.Args) == 1 && e.Args[0] != nil {
+			return -1, "not filled by crypto/rand.Read before use: crypto/rand fills another buffer (" + e.Args[0].K + "), not the one used here (" + buf.K + ") — a copy was filled"
+		}
+		if e.Callee == "io.ReadFull" && len(e.Args) == 2 && e.Args[1] != nil && strings.Contains(e.Args[0].K, "crypto/rand.Reader") {
+			return -1, "not filled by crypto/rand.Read before use: crypto/rand fills another buffer (" + e.Args[1].K + "), not the one used here (" + buf.K + ") — a copy was filled"
+		}
+	}
 	return -1, "not filled by crypto/rand.Read before use"
 }
 
-func runC07(c *an.Ctx, p *an.Prog, thorough bool) {
-	// ---- C07.1 key ----
+// sessionKeyRule: the AEAD key of the session tokens is a secret that only this agent instance has. On every path into
+// aes.NewCipher the key operand is a fresh byte buffer of this call (make([]byte, 16|24|32) or a local byte array of
+// that size), completely filled by crypto/rand (Read, or io.ReadFull on rand.Reader) with the error checked — the very
+// buffer that reaches NewCipher, not a copy of it —, used for nothing else, and written by nothing but the random fill
+// until the cipher has its own copy. One rule, instantiated for C07 ("the key is known only to the agent") and for C06
+// ("a session token issued by this agent instance … only in response to a successful password authentication": with a
+// predictable key anybody issues valid tokens). Returns the functions that build a cipher.
+func sessionKeyRule(c *an.Ctx, p *an.Prog, rule string) []*ssa.Function {
 	ctors := findFnCalling(p, mainPkg, "crypto/aes.NewCipher")
 	if len(ctors) == 0 {
-		c.Undecided("C07.1", "key", "-", "UNRESOLVED: no aes.NewCipher call in cmd/whawty-auth")
+		c.Undecided(rule, "key", "-", "UNRESOLVED: no aes.NewCipher call in cmd/whawty-auth")
 	}
 	for _, fn := range ctors {
 		for _, ci := range an.CallsTo(fn, "crypto/aes.NewCipher") {
@@ -77,6 +98,9 @@ func runC07(c *an.Ctx, p *an.Prog, thorough bool) {
 					return
 				}
 				keyTerms[k.K] = true
+				// the array behind the buffer (a local `var key [n]byte`, or the array a constant-size make is lowered to):
+				// writes through &arr[i] are writes to the key
+				keyTerms["alloc@"+strings.TrimPrefix(k.K, "makeslice@")] = true
 				if n, ok := k.Args[0].ConstInt(); !ok || !(n == 16 || n == 24 || n == 32) {
 					bad = append(bad, "key length is not a constant AES key size: "+k.Args[0].K)
 				}
@@ -104,7 +128,7 @@ func runC07(c *an.Ctx, p *an.Prog, thorough bool) {
 			if !er.Complete {
 				bad = append(bad, "path limit")
 			}
-			c.Check(len(bad) == 0, "C07.1", fnKey(fn)+"|key-fresh-random", p.InstrPos(ci), "AES key = fresh make([]byte,n) filled by crypto/rand.Read (error checked), nothing in between", strings.Join(uniqS(bad), "; "))
+			c.Check(len(bad) == 0, rule, fnKey(fn)+"|key-fresh-random", p.InstrPos(ci), "AES key = fresh make([]byte,n) filled by crypto/rand.Read (error checked), nothing in between", strings.Join(uniqS(bad), "; "))
 			// the key value flows nowhere else: (a) every use the SSA shows, through local variable cells and the closures
 			// that are interpreted inline; (b) on every complete path of the constructor (deferred calls included, where
 			// they run) the key bytes only reach the random fill, len and aes.NewCipher, and are written by nothing but
@@ -146,6 +170,8 @@ func runC07(c *an.Ctx, p *an.Prog, thorough bool) {
 								switch {
 								case e.Callee == "builtin len", e.Callee == "builtin cap", e.Callee == "crypto/aes.NewCipher", e.Callee == "crypto/rand.Read":
 								case e.Callee == "io.ReadFull" && j == 1:
+								case e.Kind == "defer" && e.Fn != nil && an.Inlinable(e.Fn):
+									// registers a helper that is interpreted where it runs: its writes appear as events there
 								case e.Callee == "builtin clear" && (e.Kind == "defer" || after):
 									// (a defer statement only registers the call; the call itself appears where it runs)
 								case e.Callee == "builtin clear":
@@ -178,12 +204,18 @@ func runC07(c *an.Ctx, p *an.Prog, thorough bool) {
 						}
 					}
 				}
-				c.Check(len(leaks) == 0, "C07.1", fnKey(fn)+"|key-confined", p.InstrPos(ci), "the key slice is used only by rand.Read, len and aes.NewCipher (never logged, stored or returned); it is written by nothing but the random fill until the cipher has its own copy", strings.Join(uniqS(leaks), "; "))
+				c.Check(len(leaks) == 0, rule, fnKey(fn)+"|key-confined", p.InstrPos(ci), "the key slice is used only by rand.Read, len and aes.NewCipher (never logged, stored or returned); it is written by nothing but the random fill until the cipher has its own copy", strings.Join(uniqS(leaks), "; "))
 			} else {
-				c.Fail("C07.1", fnKey(fn)+"|key-confined", p.InstrPos(ci), "key operand is not a local make([]byte,…)")
+				c.Fail(rule, fnKey(fn)+"|key-confined", p.InstrPos(ci), "key operand is not a local make([]byte,…)")
 			}
 		}
 	}
+	return ctors
+}
+
+func runC07(c *an.Ctx, p *an.Prog, thorough bool) {
+	// ---- C07.1 key ----
+	ctors := sessionKeyRule(c, p, "C07.1")
 	// factory fields written only in the constructor
 	{
 		var bad []string
@@ -626,6 +658,10 @@ func bufferOrigin(v ssa.Value, stack []*ssa.Call, depth int) (ssa.Value, []*ssa.
 		if al, ok := x.X.(*ssa.Alloc); ok && al.Comment == "makeslice" && len(*al.Referrers()) == 1 {
 			return x, stack
 		}
+		if al, ok := x.X.(*ssa.Alloc); ok && x.Low == nil && x.High == nil && x.Max == nil && isLocalByteArray(al) {
+			// var key [n]byte … key[:]: the buffer is the local array itself; every use of the array is followed
+			return al, stack
+		}
 	case *ssa.Phi:
 		var o ssa.Value
 		var st []*ssa.Call
@@ -672,6 +708,23 @@ func bufferOrigin(v ssa.Value, stack []*ssa.Call, depth int) (ssa.Value, []*ssa.
 		return o, st
 	}
 	return nil, nil
+}
+
+// isLocalByteArray: al is a local variable of (named or unnamed) type [n]byte.
+func isLocalByteArray(al *ssa.Alloc) bool {
+	if al.Comment == "slicelit" || al.Comment == "varargs" || al.Comment == "makeslice" {
+		return false
+	}
+	pt, ok := al.Type().Underlying().(*types.Pointer)
+	if !ok {
+		return false
+	}
+	at, ok := pt.Elem().Underlying().(*types.Array)
+	if !ok {
+		return false
+	}
+	eb, ok := at.Elem().Underlying().(*types.Basic)
+	return ok && eb.Kind() == types.Uint8
 }
 
 // rootedInSet: t is one of the buffers named by keys, a slice of it or the address of one of its elements.
@@ -810,6 +863,12 @@ func valueLeaks(p *an.Prog, origin ssa.Value, stack []*ssa.Call, allowed map[str
 			case *ssa.DebugRef, *ssa.If:
 			case *ssa.BinOp:
 				// comparison (with nil): yields a bool
+			case *ssa.UnOp:
+				if _, isArr := v.(*ssa.Alloc); isArr && x.Op == token.MUL {
+					leaks = append(leaks, "the key array is copied by value at "+p.InstrPos(r)+" (what is done to the copy is not done to the key)")
+					continue
+				}
+				leaks = append(leaks, fmt.Sprintf("used by %T at %s", r, p.InstrPos(r)))
 			case *ssa.Phi:
 				walk(x, open)
 			case *ssa.Extract:
@@ -862,6 +921,18 @@ func valueLeaks(p *an.Prog, origin ssa.Value, stack []*ssa.Call, allowed map[str
 				n := an.CalleeName(x)
 				if _, isCall := r.(*ssa.Call); isCall && allowed[n] {
 					continue
+				}
+				if g := x.Common().StaticCallee(); g != nil && an.Inlinable(g) && !x.Common().IsInvoke() {
+					// a helper outside the pinned decomposition (interpreted inline on the paths, also when deferred): what it
+					// does with the buffer is followed in its body
+					if _, isGo := r.(*ssa.Go); !isGo {
+						for i, a := range x.Common().Args {
+							if a == v && i < len(g.Params) {
+								walk(g.Params[i], 0)
+							}
+						}
+						continue
+					}
 				}
 				if _, isDefer := r.(*ssa.Defer); isDefer && n == "builtin clear" && allowed[n] {
 					continue // runs at the exit; the paths decide whether that is after the cipher took its copy
